@@ -31,6 +31,7 @@ import (
 	"bytes"
 	"encoding/binary"
 	"encoding/json"
+	"fmt"
 	"math/rand"
 	"os"
 	"os/exec"
@@ -91,13 +92,13 @@ type c14Ev map[string]interface{}
 
 const (
 	c14WindowSize = 0x20000
-	c14TablePages = 32
-	c14Cap        = 200
+	c14TablePages = 96
+	c14Cap        = 3000
 )
 
 var (
 	c14le      = binary.LittleEndian
-	c14SlotMap = []int{0, 3, 4100, 8189}
+	c14SlotMap = []int{0, 3, 4100, 8189, 4101, 4102} // model slots 1..6 (a revision-0 candidate in model slot 4 sits in 8190, the last slot it fits in)
 )
 
 // ---------------------------------------------------------------- firmware memory
@@ -108,7 +109,8 @@ type c14Arena struct {
 	tables []byte // table area, followed by an inaccessible page
 	high   []byte // second table area at or above 4 GiB, followed by an inaccessible page; its addresses
 	// taken modulo 2^32 are reserved PROT_NONE, so a truncated 64-bit pointer faults
-	dirty []int // window offsets written by the previous image
+	dirty []int         // window offsets written by the previous image
+	used  map[*byte]int // per table area: offset from which the previous image wrote
 }
 
 const c14MapFixedNoReplace = 0x100000
@@ -270,10 +272,22 @@ func (a *c14Arena) build(c *c14Case) c14Layout {
 		if total+64 > len(area) {
 			panic("c14: table area too small")
 		}
-		for i := range area {
+		off := len(area) - total
+		// wipe what the previous image left (and a margin in front of this one)
+		if a.used == nil {
+			a.used = map[*byte]int{}
+		}
+		lo, seen := a.used[&area[0]]
+		if !seen || lo > off-64 {
+			lo = off - 64
+		}
+		if !seen {
+			lo = 0
+		}
+		for i := lo; i < len(area); i++ {
 			area[i] = 0xa5
 		}
-		off := len(area) - total
+		a.used[&area[0]] = off - 64
 		for _, p := range order {
 			mem[p.idx] = area[off : off+p.n]
 			switch p.idx {
@@ -340,37 +354,82 @@ func (a *c14Arena) build(c *c14Case) c14Layout {
 		c14le.PutUint64(xb[36+8*i:], uint64(lay.tableAddr[ti-1]))
 	}
 	c14FixSum(xb, 9)
-	// ---- root-pointer candidates
+	// ---- root-pointer candidates, in address order.  A structure occupies 20 (revision 0) or 36 bytes; the encoder
+	// also writes what follows it (for revision 0: other firmware memory that happens to look like the extension).
+	// Candidates may be neighbours: a revision-0 one may be followed 2 slots later (only its trailing memory is
+	// overwritten), a revision-0 decoy / near miss even in the next slot (its last 4 bytes are then the
+	// neighbour's "RSD ").  A structure never crosses the end of the window.
 	for ci := range img.Cands {
 		cd := &img.Cands[ci]
 		if c.Scale {
-			cd.Slot = c14SlotMap[cd.Slot-1]
+			m := c14SlotMap[cd.Slot-1]
+			if cd.Slot == 4 && cd.Rev == 0 {
+				m = 8190
+			}
+			cd.Slot = m
+		}
+	}
+	sort.SliceStable(img.Cands, func(i, j int) bool { return img.Cands[i].Slot < img.Cands[j].Slot })
+	for ci := range img.Cands {
+		cd := &img.Cands[ci]
+		need := 36
+		if cd.Rev == 0 {
+			need = 20
 		}
 		off := cd.Slot * 16
-		a.dirty = append(a.dirty, off)
-		p := a.window[off : off+40]
-		for i := range p {
-			p[i] = 0
+		if off+need > len(a.window) {
+			panic("c14: root-pointer structure crosses the end of the search window")
 		}
-		copy(p, "RSD PTR ")
+		if ci > 0 {
+			pv := img.Cands[ci-1]
+			d := cd.Slot - pv.Slot
+			if !(d >= 3 || d == 2 && pv.Rev == 0 || d == 1 && pv.Rev == 0 && !(pv.Sig && pv.S20)) {
+				panic("c14: overlapping root-pointer candidates")
+			}
+		}
+		a.dirty = append(a.dirty, off)
+		var p [40]byte
+		copy(p[:], "RSD PTR ")
 		copy(p[9:], "VERIF ")
+		if c.Fill != 0 {
+			for i := 9; i < 15; i++ {
+				p[i] = byte(rng.Intn(256))
+			}
+		}
 		p[15] = byte(cd.Rev)
 		c14le.PutUint32(p[16:], uint32(lay.rsdt))
-		// (for revision 0 the structure ends here; what follows is other firmware memory - it happens to look like the extension)
 		c14le.PutUint32(p[20:], 36)
 		c14le.PutUint64(p[24:], uint64(lay.xsdt))
 		if !cd.Sig {
 			p[7] = '_'
 		}
+		p[36] = byte(cd.Tail)
+		if c.Fill != 0 && cd.Tail != 0 {
+			p[37], p[38], p[39] = byte(rng.Intn(256)), byte(rng.Intn(256)), byte(rng.Intn(256))
+		}
+		copy(a.window[off:], p[:]) // (cut at the end of the window)
+	}
+	// checksums last, in address order, on the bytes as they ended up (neighbours overlap)
+	for ci := range img.Cands {
+		cd := &img.Cands[ci]
+		p := a.window[cd.Slot*16:]
 		c14FixSum(p[:20], 8)
 		if !cd.S20 {
 			p[8] += byte(1 + rng.Intn(255))
 		}
-		c14FixSum(p[:36], 32)
-		if !cd.S36 {
-			p[32] += byte(1 + rng.Intn(255))
+		if cd.Rev != 0 {
+			c14FixSum(p[:36], 32)
+			if !cd.S36 {
+				p[32] += byte(1 + rng.Intn(255))
+			}
+		} else if len(p) >= 36 && (ci == len(img.Cands)-1 || img.Cands[ci+1].Slot-cd.Slot >= 3) {
+			c14FixSum(p[:36], 32) // trailing memory of a revision-0 structure, made to look like a valid extension
+			if !cd.S36 {
+				p[32] += byte(1 + rng.Intn(255))
+			}
+		} else {
+			cd.S36 = false // there is no such trailing memory (window ends / a neighbour sits there)
 		}
-		p[36] = byte(cd.Tail)
 	}
 	c.Scale = false
 	return lay
@@ -497,7 +556,19 @@ func TestVerifC14Child(t *testing.T) {
 	arena := c14NewArena(t)
 	for i := range jobs {
 		c := &jobs[i].Case
-		lay := arena.build(c)
+		var lay c14Layout
+		func() {
+			// a failure of the image builder is a defect of this harness, never a result of the code under test
+			defer func() {
+				if r := recover(); r != nil {
+					line, _ := json.Marshal(c14Ev{"k": "harness", "msg": fmt.Sprint(r)})
+					out.Write(append(line, '\n'))
+					out.Close()
+					os.Exit(8)
+				}
+			}()
+			lay = arena.build(c)
+		}()
 		done := make(chan c14Ev, 1)
 		go func() {
 			debug.SetPanicOnFault(true)
@@ -569,12 +640,17 @@ func c14RunIsolated(t *testing.T, env string, jobs []c14Job) {
 			sc.Buffer(make([]byte, 1<<20), 1<<26)
 			for sc.Scan() {
 				var probe struct {
+					K   string `json:"k"`
+					Msg string `json:"msg"`
 					Obs struct {
 						Probe string `json:"probe"`
 					} `json:"obs"`
 				}
 				if json.Unmarshal(sc.Bytes(), &probe) != nil {
 					break // torn last line of a dying child
+				}
+				if probe.K == "harness" {
+					t.Fatalf("harness error while building job %d: %s", n+got, probe.Msg)
 				}
 				w.Write(sc.Bytes())
 				w.WriteByte('\n')
@@ -657,12 +733,21 @@ var c14Sigs = []string{"APIC", "SSDT", "HPET", "MCFG", "BGRT", "WAET", "SRAT", "
 
 func c14RandImage(rng *rand.Rand) c14Case {
 	var img c14Img
-	// ---- tables
+	// ---- tables: any number (now and then hundreds), any length from the bare header to beyond 64 KiB
 	nt := rng.Intn(5)
 	if rng.Intn(4) == 0 {
 		nt = rng.Intn(13)
 	}
+	if rng.Intn(40) == 0 {
+		nt = 17 + rng.Intn(300)
+	}
 	perm := rng.Perm(len(c14Sigs))
+	sigOf := func(i int) string {
+		if nt <= len(c14Sigs) {
+			return c14Sigs[perm[i]]
+		}
+		return string([]byte{"QTXZ"[i%4], byte('0' + i/100%10), byte('0' + i/10%10), byte('0' + i%10)})
+	}
 	mkBad := func(n int) int {
 		if rng.Intn(3) != 0 {
 			return -1
@@ -676,14 +761,26 @@ func c14RandImage(rng *rand.Rand) c14Case {
 			return 8 + rng.Intn(n-8)
 		}
 	}
+	budget := 200000 // bytes of table area left for big tables
+	tlen := func(max int) int {
+		n := 36 + rng.Intn(3)*rng.Intn(max)
+		if rng.Intn(30) == 0 && budget > 0 {
+			n = []int{255, 256, 257, 4096, 4097, 65535, 65536, 65537, 70000 + rng.Intn(30000)}[rng.Intn(9)]
+			budget -= n
+		}
+		return n
+	}
 	for i := 0; i < nt; i++ {
-		n := 36 + rng.Intn(3)*rng.Intn(200)
-		img.Tables = append(img.Tables, c14Table{Sig: c14Sigs[perm[i]], Len: n, Bad: mkBad(n)})
+		n := tlen(200)
+		if nt > 40 {
+			n = 36 + rng.Intn(3)*rng.Intn(20)
+		}
+		img.Tables = append(img.Tables, c14Table{Sig: sigOf(i), Len: n, Bad: mkBad(n)})
 	}
 	rev := []int{0, 0, 0, 2, 2, 2, 2, 1, 3, 255}[rng.Intn(10)]
 	fadt := 0
 	if rng.Intn(5) < 3 {
-		n := 36 + rng.Intn(400)
+		n := tlen(400)
 		img.Tables = append(img.Tables, c14Table{Sig: "DSDT", Len: n, Bad: mkBad(n)})
 		d := len(img.Tables)
 		fl := []int{116, 244, 268, 276}[rng.Intn(4)]
@@ -721,38 +818,22 @@ func c14RandImage(rng *rand.Rand) c14Case {
 			img.Tables[i].High = rng.Intn(2) == 0
 		}
 	}
-	// ---- search window: possibly one valid root pointer, decoys at other slots (at least 3 slots apart)
-	used := map[int]bool{}
-	slot := func() int {
-		for {
-			s := rng.Intn(8190)
-			if rng.Intn(6) == 0 {
-				s = []int{0, 1, 2, 8187, 8188, 8189}[rng.Intn(6)]
-			}
-			ok := true
-			for d := -2; d <= 2; d++ {
-				if used[s+d] {
-					ok = false
-				}
-			}
-			if ok {
-				used[s] = true
-				return s
-			}
-		}
-	}
+	// ---- search window: possibly one valid root pointer anywhere it fits (revision 0: slots 0..8190, else 0..8189),
+	// decoys (bad checksum) and near misses (bad signature) before and after it, also in the neighbouring slots
 	tail := func() int {
 		if rng.Intn(2) == 0 {
 			return 0
 		}
 		return 1 + rng.Intn(255)
 	}
-	if rng.Intn(10) != 0 {
-		img.Cands = append(img.Cands, c14Cand{Slot: slot(), Rev: rev, Sig: true, S20: true, S36: true, Tail: tail()})
+	last := func(r int) int {
+		if r == 0 {
+			return 8190
+		}
+		return 8189
 	}
-	for i := rng.Intn(4); i > 0; i-- {
-		r := []int{0, 2, 2, rev}[rng.Intn(4)]
-		cd := c14Cand{Slot: slot(), Rev: r, Sig: true, S20: rng.Intn(2) == 0, S36: false, Tail: tail()}
+	decoy := func(slot, r int) c14Cand {
+		cd := c14Cand{Slot: slot, Rev: r, Sig: true, S20: rng.Intn(2) == 0, S36: false, Tail: tail()}
 		if r == 0 {
 			cd.S20 = false
 			cd.S36 = rng.Intn(2) == 0
@@ -760,7 +841,46 @@ func c14RandImage(rng *rand.Rand) c14Case {
 		if rng.Intn(5) == 0 {
 			cd.Sig, cd.S20, cd.S36 = false, true, true // near-miss signature, otherwise a perfect structure
 		}
-		img.Cands = append(img.Cands, cd)
+		return cd
+	}
+	var cands []c14Cand
+	if rng.Intn(10) != 0 {
+		s := rng.Intn(last(rev) + 1)
+		if rng.Intn(5) == 0 {
+			s = []int{0, 1, 2, last(rev) - 2, last(rev) - 1, last(rev)}[rng.Intn(6)]
+		}
+		cands = append(cands, c14Cand{Slot: s, Rev: rev, Sig: true, S20: true, S36: true, Tail: tail()})
+		// neighbours of the valid one
+		if rng.Intn(4) == 0 && s >= 2 {
+			cands = append(cands, decoy(s-1-rng.Intn(2), 0))
+		}
+		if rng.Intn(6) == 0 && rev == 0 && s+2 <= 8189 {
+			cands = append(cands, decoy(s+2, []int{0, 2}[rng.Intn(2)]))
+		}
+	}
+	for i := rng.Intn(4) + rng.Intn(2)*rng.Intn(4); i > 0; i-- {
+		r := []int{0, 2, 2, rev}[rng.Intn(4)]
+		s := rng.Intn(last(r) + 1)
+		if rng.Intn(6) == 0 {
+			s = []int{0, 1, 2, last(r) - 2, last(r) - 1, last(r)}[rng.Intn(6)]
+		}
+		cands = append(cands, decoy(s, r))
+	}
+	// keep a candidate only if it is compatible with those kept before it (the valid one first)
+	ok := func(a, b c14Cand) bool { // a below b
+		d := b.Slot - a.Slot
+		return d >= 3 || d == 2 && a.Rev == 0 || d == 1 && a.Rev == 0 && !(a.Sig && a.S20)
+	}
+	for _, cd := range cands {
+		fits := true
+		for _, k := range img.Cands {
+			if k.Slot == cd.Slot || k.Slot < cd.Slot && !ok(k, cd) || cd.Slot < k.Slot && !ok(cd, k) {
+				fits = false
+			}
+		}
+		if fits {
+			img.Cands = append(img.Cands, cd)
+		}
 	}
 	sort.Slice(img.Cands, func(i, j int) bool { return img.Cands[i].Slot < img.Cands[j].Slot })
 	if img.Cands == nil {
